@@ -86,10 +86,29 @@ pub struct Workload {
     /// 3 = inside a nested mod in a helper that nothing calls
     #[serde(default)]
     pub hidden: Vec<(u8, usize)>,
+    /// search directories that are reached through a symlinked directory and `..`
+    #[serde(default)]
+    pub symlinked: Vec<u8>,
 }
 
-fn dir_path(d: u8) -> String {
-    format!("{}/d{}", DIR, d)
+/// where the files of search directory `d` really live
+fn real_dir(w: &Workload, d: u8) -> String {
+    if w.symlinked.contains(&d) {
+        format!("{}/x{}", DIR, d)
+    } else {
+        format!("{}/d{}", DIR, d)
+    }
+}
+
+/// how search directory `d` is spelt on the search path: either plainly, or as
+/// `r/d<d>/lnk/..` where `lnk` is a symlink to `r/x<d>/sub` - the kernel resolves that to
+/// `r/x<d>`, a textual clean-up of the name to `r/d<d>`, which is another directory
+fn search_dir(w: &Workload, d: u8) -> String {
+    if w.symlinked.contains(&d) {
+        format!("{}/d{}/lnk/..", DIR, d)
+    } else {
+        format!("{}/d{}", DIR, d)
+    }
 }
 
 const KINDS: [&str; 3] = ["bin", "hex", "sexp"];
@@ -210,17 +229,29 @@ pub fn setup_dir(w: &Workload) {
     let _ = fs::remove_dir_all(DIR);
     fs::create_dir_all(DIR).expect("mkdir run dir");
     for d in 0..w.ndirs {
-        fs::create_dir_all(dir_path(d)).unwrap();
+        fs::create_dir_all(format!("{}/d{}", DIR, d)).unwrap();
+        if w.symlinked.contains(&d) {
+            fs::create_dir_all(format!("{}/x{}/sub", DIR, d)).unwrap();
+            let _ = std::os::unix::fs::symlink(
+                format!("../x{}/sub", d),
+                format!("{}/d{}/lnk", DIR, d),
+            );
+        }
     }
     for (i, inc) in w.incs.iter().enumerate() {
         for (d, k) in inc.copies.iter() {
-            let p = format!("{}/{}", dir_path(*d), inc.name);
+            let p = format!("{}/{}", real_dir(w, *d), inc.name);
             place(&p, *k, render_inc(w, i, *d).as_bytes());
+            if w.symlinked.contains(d) {
+                // a stale copy where a textually cleaned-up name would point
+                let stale = format!("{}/d{}/{}", DIR, d, inc.name);
+                place(&stale, REAL, render_inc(w, i, *d + 40).as_bytes());
+            }
         }
     }
     for dt in w.datas.iter() {
         for (d, k) in dt.copies.iter() {
-            let p = format!("{}/{}", dir_path(*d), dt.name);
+            let p = format!("{}/{}", real_dir(w, *d), dt.name);
             place(&p, *k, &data_content(dt.kind, *d));
         }
     }
@@ -232,14 +263,14 @@ fn denied_paths(w: &Workload) -> Vec<String> {
     for inc in w.incs.iter() {
         for (d, k) in inc.copies.iter() {
             if *k == DENIED {
-                v.push(format!("{}/{}", dir_path(*d), inc.name));
+                v.push(format!("{}/{}", search_dir(w, *d), inc.name));
             }
         }
     }
     for dt in w.datas.iter() {
         for (d, k) in dt.copies.iter() {
             if *k == DENIED {
-                v.push(format!("{}/{}", dir_path(*d), dt.name));
+                v.push(format!("{}/{}", search_dir(w, *d), dt.name));
             }
         }
     }
@@ -401,6 +432,11 @@ pub fn generate(rng: &mut Rng, thorough: bool) -> Workload {
         transient_pm: if rng.chance(1, 10) { 150 } else { 0 },
         nested_mod,
         hidden,
+        symlinked: if rng.chance(1, 5) {
+            vec![rng.below(ndirs as u64) as u8]
+        } else {
+            vec![]
+        },
     }
 }
 
@@ -415,7 +451,7 @@ fn actor_body(w: Workload) -> Box<dyn FnOnce(&Actor) + Send + 'static> {
         use chialisp::compiler::comptypes::CompilerOpts;
         use chialisp::compiler::preprocessor::gather_dependencies;
         use chialisp::compiler::sexp::decode_string;
-        let search: Vec<String> = w.search.iter().map(|d| dir_path(*d)).collect();
+        let search: Vec<String> = w.search.iter().map(|d| search_dir(&w, *d)).collect();
         let text = match fs::read_to_string(MAIN) {
             Ok(t) => t,
             Err(_) => {
@@ -705,7 +741,7 @@ impl Policy for C18Policy {
             }
         }
         // (c) no listed file is shadowed by a readable regular file earlier in the path
-        let dirs: Vec<String> = self.w.search.iter().map(|d| dir_path(*d)).collect();
+        let dirs: Vec<String> = self.w.search.iter().map(|d| search_dir(&self.w, *d)).collect();
         for l in listed.iter() {
             if let Some(j) = dirs.iter().position(|d| l.starts_with(&format!("{}/", d))) {
                 let name = &l[dirs[j].len() + 1..];
@@ -769,7 +805,7 @@ pub fn run_one(w: &Workload, tape: &mut Tape, entropy_seed: u64) -> Result<RunRe
     let log_hash = sched::hash_events(&out.events);
     let detail = serde_json::json!({
         "main": render_main(w),
-        "search_path": w.search.iter().map(|d| dir_path(*d)).collect::<Vec<_>>(),
+        "search_path": w.search.iter().map(|d| search_dir(w, *d)).collect::<Vec<_>>(),
         "listing": match &policy.listed { Some(Ok(l)) => serde_json::json!(l), Some(Err(e)) => serde_json::json!({"error": e}), None => serde_json::json!(null) },
         "compile_ok": policy.compiled_ok,
         "files_read_by_compile": policy.reads,
@@ -938,6 +974,11 @@ impl Prop for C18 {
         for k in 0..w.hidden.len() {
             let mut c = w.clone();
             c.hidden.remove(k);
+            out.push(c);
+        }
+        if !w.symlinked.is_empty() {
+            let mut c = w.clone();
+            c.symlinked.clear();
             out.push(c);
         }
         if w.entry != 0 {
